@@ -47,7 +47,10 @@ class Files:
         self.n = 0
 
     def _pair(self, stem, lines):
-        p = {"plain": os.path.join(self.d, stem + ".gaf"), "bgzf": os.path.join(self.d, stem + ".gaf.gz")}
+        # the tool recognises a compressed GAF by its CONTENT (magic bytes): every third data set names its BGZF copy x.bgzf.gaf, as
+        # `gaftools sort --bgzip --outgaf sorted.gaf` would (added after seeded change C17-6)
+        p = {"plain": os.path.join(self.d, stem + ".gaf"),
+             "bgzf": os.path.join(self.d, stem + (".bgzf.gaf" if len(self.data["gaf"]) % 3 == 0 else ".gaf.gz"))}
         eol = self.data.get("eol", "\n")
         write_lines(p["plain"], lines, eol=eol)
         write_lines(p["bgzf"], lines, bgzf=True, eol=eol)
